@@ -289,6 +289,30 @@ class PathChecker:
                 return True
         return False
 
+    def _tight_comparison(self, env):
+        """does some branch decision of this path hold with exact equality of its two sides under the witness?  Then the
+        float run (which rounds every operation) may legitimately take the other branch."""
+        from . import evalq
+        z3 = self.z3
+        ops = (z3.Z3_OP_LE, z3.Z3_OP_GE, z3.Z3_OP_LT, z3.Z3_OP_GT, z3.Z3_OP_EQ, z3.Z3_OP_DISTINCT)
+        memo = {}
+        for c, tag in zip(self.ex.pc, self.ex.tags):
+            if tag is not None:
+                continue
+            a = c.arg(0) if z3.is_not(c) else c
+            if not z3.is_app(a) or a.decl().kind() not in ops or a.num_args() != 2:
+                continue
+            if a.arg(0).sort().kind() != z3.Z3_REAL_SORT:
+                continue
+            if z3.is_rational_value(a.arg(0)) and z3.is_const(a.arg(1)) or z3.is_rational_value(a.arg(1)) and z3.is_const(a.arg(0)):
+                continue            # an input compared with a constant is exact in floats as well
+            try:
+                if evalq.evaluate(a.arg(0), env, memo) == evalq.evaluate(a.arg(1), env, memo):
+                    return True
+            except evalq.EvalError:
+                continue
+        return False
+
     def _knife_edge(self):
         z3 = self.z3
         for c, tag in zip(self.ex.pc, self.ex.tags):
@@ -571,7 +595,7 @@ class PathChecker:
             cobs = self.h.observe(cinp, cout)
             self.last_env = env
             msg = _compare_observations(obs, cobs, env)
-            if msg is not None and self._near_rounding_boundary(env):
+            if msg is not None and (self._near_rounding_boundary(env) or self._tight_comparison(env)):
                 # an integer-part argument sits within 1e-6 of its boundary: the float computation may round the other way
                 near_boundary += 1
                 msg = None
